@@ -127,6 +127,7 @@ def register(E):
     def adopt_eff(s_after, extra=None):
         def eff(st2):
             st2.heap = dict(s_after.heap)
+            st2.notes = s_after.notes
             for fid, fr in s_after.fmap.items():
                 if fid in st2.fmap: st2.fmap[fid].locs = dict(fr.locs)
             if extra: return extra(st2)
@@ -198,6 +199,7 @@ def register(E):
             val = Obj('String', E.read_ref(s_after, fm).data[0])
             def eff(st2, s_after=s_after):
                 st2.heap = dict(s_after.heap)
+                st2.notes = s_after.notes
                 for fid, fr in s_after.fmap.items():
                     if fid in st2.fmap: st2.fmap[fid].locs = dict(fr.locs)
             res.append((cond, val, eff))
